@@ -137,6 +137,12 @@ def scan(cfg, log):
                 if und:
                     bad("success_complete", what="scheduler %d reports success while its non-forever job(s) %s have "
                         "not finished" % (n, und), scheduler=n, unfinished=und, at=now)
+            live = sorted(x for x in executing if x != n and _below(jobs, n, x))
+            if live:
+                # C11 / C05 / C08 / C09: a run ends only after the cancellation of its jobs is over
+                bad("jobs_over", what="the run of scheduler %d ends (%s) while job(s) %s below it are still executing "
+                    "(body entered, neither finished nor through with their cancellation)" % (n, e[2], live),
+                    scheduler=n, jobs=live, at=now)
             still = [x for x in hrunning if _below(jobs, n, x)]
             if still:
                 bad("handlers_over", what="the run of scheduler %d ends while the co_shutdown() handler(s) of %s are "
